@@ -65,8 +65,11 @@ Definition fmt_used (maxp : Z) (a : adder) (p : Z) : list fitem :=
   | Some f => if p =? maxp then f else a_dec a
   | None => a_dec a
   end.
-(* the text and its terminating NUL fit *)
-Definition fits (maxp : Z) (a : adder) (p : Z) : bool := max_text p (fmt_used maxp a p) + 1 <=? buf_size a p.
+(* the text and its terminating NUL fit, and the (possibly variable length) array stays below the
+   size this development accepts for an object on the stack *)
+Definition vla_limit : Z := 65536.
+Definition fits (maxp : Z) (a : adder) (p : Z) : bool :=
+  (max_text p (fmt_used maxp a p) + 1 <=? buf_size a p) && (buf_size a p <=? vla_limit).
 
 Record savecfg := { c_maxp : Z; c_fset : setter; c_dset : setter; c_int : adder; c_dbl : adder; c_cpx : adder }.
 
@@ -97,9 +100,14 @@ Definition adder_safe (maxp : Z) (s : setter) (a : adder) : bool :=
   match a_max a with
   | Some f => let '(ne2, oc2) := lin_items f in (ne2 =? 0) && (0 <=? a_coef a) && (oc2 + 1 <=? a_coef a + a_const a)
   | None => true
-  end.
+  end &&
+  ((a_coef a =? 0) && (a_const a <=? vla_limit)
+   || match s_hi s with
+      | Some h => (0 <=? a_coef a) && (a_coef a * Z.max h 1 + a_const a <=? vla_limit)
+      | None => false
+      end).
 Definition cfg_safe (c : savecfg) : bool :=
   adder_safe (c_maxp c) (c_fset c) (c_dbl c) && adder_safe (c_maxp c) (c_dset c) (c_cpx c) &&
-  (max_text 1 (a_dec (c_int c)) + 1 <=? a_const (c_int c)) && (a_coef (c_int c) =? 0) &&
+  (max_text 1 (a_dec (c_int c)) + 1 <=? a_const (c_int c)) && (a_coef (c_int c) =? 0) && (a_const (c_int c) <=? vla_limit) &&
   forallb (fun i => match i with FE _ => false | _ => true end) (a_dec (c_int c)) &&
   match a_max (c_int c) with None => true | Some _ => false end.
